@@ -46,7 +46,7 @@ Theorem pad_in_bounds_exact_last :
 Proof. exact pad_in_bounds_exact. Qed.
 Print Assumptions pad_in_bounds_exact_last.
 
-(** PINNED tree (sizing before `fix:` d13e4f1; fixed finding pad-overflow): refuted without the
+(** PINNED tree (sizing before `fix:` 899923d; fixed finding pad-overflow): refuted without the
     side condition, inside the documented domain (buckets do not
     overlap: spacing_bins = 17 >= n = 16; no rounding to a power of two): 5 filled buckets,
     spacing_ps = 265/256 -> s1 = 16.5625, spacing_bins = 17, nmax = ceil(82.8125) = 83, last
@@ -77,7 +77,7 @@ Proof.
 Qed.
 Print Assumptions pad_in_bounds_pow2_refuted.
 
-(** tree after `fix:` d13e4f1 (spaced_bins >= (nbuckets-1)*spacing_bins + ps_bins before the
+(** tree after `fix:` 899923d (spaced_bins >= (nbuckets-1)*spacing_bins + ps_bins before the
     rounding): for EVERY spacing, padding and rounding mode, every cell padBunchProfiles writes
     and wakePotential reads back lies inside the wake buffers main allocates.  No condition on
     the spacing is left; the two magnitude bounds only keep upper_power_of_two on its domain. *)
@@ -204,7 +204,7 @@ Example fp_table_in_bounds_hyps : (* n = 32, no shift: zerobin = 31/2 *)
   1 <= Qctrunc (Q2Qc (31 # 2)) /\ (this (Q2Qc (31 # 2)) <= inject_Z (32 - 2))%Q /\ fp_all_ok 32 4 (Q2Qc (31 # 2)) true = true.
 Proof. split; [vm_compute; discriminate|]. split; [vm_compute; discriminate | vm_compute; reflexivity]. Qed.
 
-(** tree after `fix:` 5c817d5: main builds the cubic map only when its guard
+(** tree after `fix:` de00324: main builds the cubic map only when its guard
     [1 <= zerobin <= GridSize-2] holds; then the constructor is in bounds - for every grid
     shift the program accepts (the others are refused with a message) *)
 Theorem fp_guarded_table_in_bounds :
